@@ -54,3 +54,8 @@ func VerifC06ProcessDeltaRequest(s *DiscoveryServer, req *discovery.DeltaDiscove
 func VerifC06ConfigDumpTypes(s *DiscoveryServer, con *Connection, types []string) int {
 	return len(s.getConfigDumpByResourceType(con, nil, types))
 }
+
+// VerifC06PushConnectionDelta exposes pushConnectionDelta.
+func VerifC06PushConnectionDelta(s *DiscoveryServer, con *Connection, req *model.PushRequest) error {
+	return s.pushConnectionDelta(con, &Event{pushRequest: req, done: func() {}})
+}
